@@ -77,6 +77,7 @@ func (c *FnCtx) unsup(f string, a ...any) {
 
 // FnCtx holds the state of VC generation for one function.
 type FnCtx struct {
+	headHeap map[*ssa.BasicBlock]Heap // heap at each loop head (after havoc), for athead() in invariants
 	evalMode bool // concrete evaluation of a contract (replay): recursive specs are not fuel-limited
 	g        *Gen
 	fn       *ssa.Function
